@@ -489,6 +489,12 @@ func genC20(t *rapid.T) *Scenario {
 		n := []int{0, 128, 1024, 32768, 262144}[uniform(t, 0, 4, "paylen")]
 		target := byte(0x64 + uniform(t, 0, 2, "target"))
 		note = fmt.Sprintf("precompile %#x payload-bytes=%d big", target, n)
+		var hostileLen, hostileAt uint64
+		if target == 0x66 && n >= 128 && rapid.Bool().Draw(t, "hostlen") {
+			hostileLen = pickU64(t, "hostlenv", 1<<20, 1<<24, 1<<26, 1<<27, 1<<28)
+			hostileAt = pickU64(t, "hostlenat", 0x40, 0x60)
+			note += fmt.Sprintf(" length-word=%d@%#x", hostileLen, hostileAt)
+		}
 		if forkIndex(fork) < 8 {
 			fork = "Berlin"
 		}
@@ -500,9 +506,14 @@ func genC20(t *rapid.T) *Scenario {
 				if n >= 128 {
 					a.Push(n - 128).Push(0x60).Op(MSTORE)
 				}
+				if hostileLen > 0 {
+					// a length word that announces far more than the payload holds
+					a.Push(hostileLen).Push(hostileAt).Op(MSTORE)
+				}
 			}
 			a.Push(1).Push(n).Op(MSTORE) // allocate
-			a.Push(0x20).Push(0).Push(n).Push(0).Push(0).Push(uint64(target)).Push(100000).Op(CALL, POP)
+			// a failing call forfeits everything it was given: forward little more than the fee
+			a.Push(0x20).Push(0).Push(n).Push(0).Push(0).Push(uint64(target)).Push(uint64(pickInt(t, "pregas", 100000, 6000, 5000))).Op(CALL, POP)
 		}, nil, nil)
 	default:
 		// any single standard or journal instruction with generated operands
